@@ -1160,6 +1160,13 @@ func runHist(t *testing.T, seed int64, n int, out *Out) {
 					stats["govVault/applied"]++
 				}
 			}
+			if os.Getenv("VERIF_GOVAMM") != "" && (b == 1 || h.r.Intn(25) == 0) {
+				// governance moves one of the amm module's fee parameters (early in the history, and now and then again)
+				if sh := h.govAmmShock(); sh != "" {
+					curShocks = append(curShocks, sh)
+					stats["govAmm/applied"]++
+				}
+			}
 			if os.Getenv("VERIF_GOVPOOL") != "" && h.r.Intn(10) == 0 {
 				// governance rewrites one pool's parameters (oracle switch, swap fee)
 				if sh, tx := h.govPoolShock(); sh != "" {
